@@ -125,7 +125,8 @@ def detoured(draw, tree, frm, path, enabled):
 
 @st.composite
 def wirings(draw, max_procs=3, features=('dotdot', 'split', 'leaf', 'glob',
-                                         'alias', 'output', 'deep')):
+                                         'alias', 'output', 'deep',
+                                         'omit_port')):
     tree, collections = draw(trees(want_collection='glob' in features
                                    and draw(st.booleans())))
     background = draw(st.booleans())
@@ -234,9 +235,28 @@ def wirings(draw, max_procs=3, features=('dotdot', 'split', 'leaf', 'glob',
                     outputs.append(port)
                 schema[port] = pschema
                 topology[port] = topo
+        omitted = []
+        if 'omit_port' in features and draw(st.integers(0, 2)) == 0:
+            # a port wired to the sibling store of its own name may be left
+            # out of the topology (Store._topology_ports wires it by default)
+            cands = [q for q, t in topology.items()
+                     if isinstance(t, list) and len(t) == 1 and t[0] != '..'
+                     and t[0] not in schema and not t[0].startswith('_')]
+            if cands:
+                q = draw(st.sampled_from(sorted(cands)))
+                name = topology.pop(q)[0]
+                schema[name] = schema.pop(q)
+                for w in W:
+                    if w[0][0] == q:
+                        w[0][0] = name
+                outputs = [name if o == q else o for o in outputs]
+                for g in globs:
+                    if g['view'] == [q]:
+                        g['view'] = [name]
+                omitted.append(name)
         procs.append({'name': 'P%d' % i, 'at': at, 'schema': schema,
                       'topology': topology, 'W': W, 'globs': globs,
-                      'outputs': outputs})
+                      'outputs': outputs, 'omitted': omitted})
     return {'tree': tree, 'collections': collections,
             'background': background, 'procs': procs}
 
@@ -296,6 +316,8 @@ def labels(spec):
             out.add('dotdot')
     targets = {}
     for p in spec['procs']:
+        if p.get('omitted'):
+            out.add('port_omitted_from_topology')
         for port, t in p['topology'].items():
             scan_topo(t)
         for port, s in p['schema'].items():
